@@ -62,6 +62,10 @@ def check_record(args):
             conc = T.Concretiser()
         elif mode == 'jitter':
             conc = T.Concretiser(rnd, jitter=1e-5)
+        elif mode == 'low-junction':
+            conc = LowJunction(rnd, inp)
+            if conc.low is None:
+                return out
         else:
             conc = NearMiss(rnd, inp, diag=(mode == 'nearmiss-diag'))
         if rec.get('reject'):
@@ -178,6 +182,40 @@ def jobs(chk, tier):
             if len(r['input']) >= 2:
                 yield (r, g, 'nearmiss', sd)
                 yield (r, g, 'nearmiss-diag', sd)
+                if not any(o.get('kind') == 'A' for o in r['input']):
+                    yield (r, g, 'low-junction', sd)
+
+
+class LowJunction(T.Concretiser):
+    """a junction point (free point id with >= 2 ends) lies 1.5 matching tolerances above z = 0:
+       it is NOT on the ground plane, its ends are joined and nothing is snapped"""
+
+    def __init__(self, rnd, inp):
+        super().__init__(rnd, jitter=0.0, scale=1.0)
+        cnt = {}
+        for o in inp:
+            for p in (o['p1'], o['p2']):
+                if p < 100:
+                    cnt[p] = cnt.get(p, 0) + 1
+        cands = sorted(p for p, c in cnt.items() if c >= 2)
+        self.low = rnd.choice(cands) if cands else None
+        base = T.Concretiser.base
+        if self.low is not None:
+            def L(o):
+                pts = []
+                for pid in (o['p1'], o['p2']):
+                    b = np.array(base(self, pid))
+                    if pid == self.low:
+                        b[2] = 0.0
+                    pts.append(b)
+                return np.linalg.norm(pts[0] - pts[1]) / o['ns']
+            self.tol = 1e-3 * min(L(o) for o in inp)
+
+    def base(self, pid):
+        b = T.Concretiser.base(self, pid)
+        if pid == self.low:
+            return (b[0], b[1], 1.5 * self.tol)
+        return b
 
 
 def tapered_tolerance_cases():
